@@ -38,7 +38,7 @@ func c08ops(nops int, helper bool) {
 		ocancel()
 	}()
 	doOp := func(who string, i int) {
-		op := zzverif.Choose(who+"op"+strconv.Itoa(i), 8)
+		op := zzverif.Choose(who+"op"+strconv.Itoa(i), 9)
 		ctx := opctx
 		switch op {
 		case 0: // report a value
@@ -66,6 +66,8 @@ func c08ops(nops int, helper bool) {
 			shutdown = true
 		case 7: // blocking report
 			_ = src.wa.BlockingReportNewValue(ctx, mkValue(src.t, hval{setA: true, a: int64(i + 10)}))
+		case 8: // blocking report of a value that fails Verify
+			_ = src.wa.BlockingReportNewValue(ctx, mkValue(src.t, hval{setA: true, a: int64(i + 20), setBad: true, bad: true}))
 		}
 	}
 	done := make(chan struct{})
